@@ -154,7 +154,6 @@ class Model(Object):
         return self._solver
 
     @solver.setter
-    @resettable
     def solver(self, value: Union[str, ModuleType]) -> None:
         """Set the attached solver instance.
 
@@ -174,6 +173,11 @@ class Model(Object):
         # Do nothing if the solver did not change
         if self.problem == interface:
             return
+        context = get_context(self)
+        if context:
+            # Undo functions recorded before the switch refer to the current solver
+            # object, so that very object is put back when the context is left.
+            context(partial(setattr, self, "_solver", self._solver))
         self._solver = interface.Model.clone(self._solver)
 
     @property
